@@ -1001,8 +1001,21 @@ class state( dict ):
                         #log.debug( "%s <- %-10.10r --> %s (extra state)", states[lst].name_centered(),
                         #           enc, states[add] )
                         if states[pre].encode( True ) in states[pre]:
+                            # A symbol sharing its bytes so far with this one is of the same length (UTF-8);
+                            # consume what remains of it after the differing byte, before the wildcard's target.
+                            wild	= states[pre][True]
+                            for skp in range( len( xformed ) - 2 - num if wild is not None else 0 ):
+                                ski	= len( states )
+                                while ski in machine.map or ski in states:
+                                    ski += 1
+                                states[ski] \
+                                    = cls( name=str( pre ) + '_' + str( num ) + '.' + str( skp ),
+                                           terminal=False, **kwds )
+                                states[ski][True] \
+                                    = wild
+                                wild	= states[ski]
                             states[add][True] \
-                                = states[pre][True]
+                                = wild
                             #log.debug( "%s <- %-10.10r --> %s (dup wild)", states[add].name_centered(),
                             #           True, states[pre][True] )
                         lst	= add
